@@ -43,6 +43,7 @@ Definition plain_agrees (p : list op) (r : list val * list val) : bool :=
   | None => true          (* outside the modelled plain fragment, or the model says on_error *)
   end.
 Definition plain_timed_agrees (p : list op) (r : list val * list (list val) * list val) : bool :=
+  if negb (tsafe p) then true else       (* take/first followed by a completion-triggered operator *)
   match ptimed_pipe p (fst (fst r)) with
   | Some (os, fin) => list_eqb (list_eqb val_same) os (snd (fst r)) && list_eqb val_same fin (snd r)
   | None => true          (* outside the timed plain fragment, or the model says on_error *)
